@@ -793,3 +793,60 @@ pub fn gen_program(tape: &[u16], prof: &Profile) -> Program {
     p.layout = t.pick(1 << 15) as u32;
     p
 }
+
+/// An edited version of `base` (C12): same signature (possibly one more predicate), rules keep
+/// their names but may get a different body, rules may disappear or be added. Anonymous rules are
+/// numbered by position, so removing a rule renames the later anonymous ones.
+pub fn gen_variant(base: &Program, tape: &[u16], prof: &Profile) -> Program {
+    let mut t = Tape::new(tape);
+    let mut p = base.clone();
+    if t.chance(1, 6) {
+        let used: Vec<&str> = p.rels.iter().map(|r| r.name.as_str()).collect();
+        if let Some(name) = PRED_NAMES.iter().find(|n| !used.contains(n)) {
+            let ar = t.pick(3);
+            let cols = (0..ar).map(|_| t.pick(p.types.len())).collect();
+            p.rels.push(RelDecl { name: name.to_string(), kind: RelKind::Pred, cols });
+            p.order.push(DeclRef::Rel(p.rels.len() - 1));
+        }
+    }
+    // regenerate some bodies
+    for ri in 0..p.rules.len() {
+        if t.chance(1, 2) {
+            let body = {
+                let mut g = RuleGen { p: &p, prof, t: &mut t, vars: Vec::new(), fanout: 1 };
+                let mut ctx = Ctx::default();
+                g.block(&mut ctx, 0, prof.max_stmts)
+            };
+            p.rules[ri].body = body;
+        }
+    }
+    // remove a rule
+    if p.rules.len() > 1 && t.chance(1, 4) {
+        let ri = t.pick(p.rules.len());
+        p.rules.remove(ri);
+        p.order = p
+            .order
+            .iter()
+            .filter_map(|d| match d {
+                DeclRef::Rule(r) if *r == ri => None,
+                DeclRef::Rule(r) if *r > ri => Some(DeclRef::Rule(r - 1)),
+                other => Some(*other),
+            })
+            .collect();
+    }
+    // add a rule
+    if t.chance(1, 3) {
+        let used: Vec<String> = p.rules.iter().filter_map(|r| r.name.clone()).collect();
+        let name = if t.chance(1, 3) { None } else { RULE_NAMES.iter().map(|s| s.to_string()).find(|n| !used.contains(n)) };
+        let body = {
+            let mut g = RuleGen { p: &p, prof, t: &mut t, vars: Vec::new(), fanout: 1 };
+            let mut ctx = Ctx::default();
+            g.block(&mut ctx, 0, prof.max_stmts)
+        };
+        p.rules.push(Rule { name, body });
+        let pos = t.pick(p.order.len() + 1);
+        p.order.insert(pos, DeclRef::Rule(p.rules.len() - 1));
+    }
+    p.layout = t.pick(1 << 15) as u32;
+    p
+}
